@@ -34,6 +34,7 @@ class FnRec:
         self.lost = []          # anchors of this function that no longer match (tolerant weave): (key, message, pinned)
         self.src_addr = None    # address of the function in the source file (addr carries a `__part` suffix for a split proof)
         self.fnmode = False     # verified on its own (--verify-function) in parallel with the rest of its module
+        self.body_rejected = False
         self.part = None
 
 
@@ -67,6 +68,9 @@ PINNED_ROOT = os.path.join(VERIF, 'contracts', 'pinned_src')
 TOLERANT = [True]
 # differential run: {fn addr: set of directive keys to leave out on purpose}
 FORCE_DROP = [{}]
+# functions woven WITHOUT their body (signature + contract only) because the verifier's front end rejected the body in a first
+# pass (a construct without specification, a proof hook that no longer fits): the rest of the crate still gets a verdict
+FORCE_STUB = [set()]
 
 
 _helper_tab = {}
@@ -297,7 +301,11 @@ def weave_fn(unit, tmpl_rel, blk):
     # --- emit signature
     sig_lines = sig.rstrip().split('\n')
     rec.gen_start = len(unit.lines) + 1
+    if rec.addr in FORCE_STUB[0] and not blk.get('stub'):
+        unit.emit('#[verifier::external_body] // vx:body-rejected (graceful degradation: this function is undecided in this run)', ('t', tmpl_rel, blk['line']))
     for attr in blk['attrs']:
+        if rec.addr in FORCE_STUB[0] and 'rlimit' in attr[0] or (rec.addr in FORCE_STUB[0] and 'spinoff' in attr[0]):
+            continue
         unit.emit(attr[0], ('t', tmpl_rel, attr[1]))
     for k, ln in enumerate(sig_lines):
         unit.emit(ln, ('s', src.rel, first_line + k))
@@ -317,6 +325,16 @@ def weave_fn(unit, tmpl_rel, blk):
 
     if 'external_body' in blk['flags']:
         rec.external_body = True
+    if rec.addr in FORCE_STUB[0] and not blk.get('stub'):
+        # graceful degradation (DESIGN 11.16): the body of this function was rejected by the verifier's front end; it is left
+        # out so that every OTHER function still gets a verdict.  Its own obligations are undecided (never an alarm).
+        unit.emit('    { unimplemented!() } // body left out: rejected by the front end in the first pass', ('t', tmpl_rel, blk['line']))
+        rec.external_body = True
+        rec.body_rejected = True
+        rec.rules = fired
+        rec.gen_end = len(unit.lines)
+        unit.fns.append(rec)
+        return
     if blk.get('stub'):
         # split proof: the function other modules call.  Its contract is the common precondition and the UNION of the
         # postcondition groups, each of which is proved on the real text by one `<fn>__<part>` copy.
@@ -672,7 +690,7 @@ def load_template(unit, path, srcmap, seen=None):
             i += 1
 
 
-def build_unit(name='cfb', pinned=False, force_drop=None):
+def build_unit(name='cfb', pinned=False, force_drop=None, force_stub=None):
     """The whole crate is one generated file (one Verus `mod` per source
     module); checks verify only the modules a property needs.
     pinned=True: the function text comes from contracts/pinned_src (the sources the contracts were written against)
@@ -680,11 +698,13 @@ def build_unit(name='cfb', pinned=False, force_drop=None):
     reset_sources()
     SOURCE_ROOT[0] = PINNED_ROOT if pinned else REPO
     FORCE_DROP[0] = force_drop or {}
+    FORCE_STUB[0] = set(force_stub or [])
     try:
         return _build_unit(name)
     finally:
         SOURCE_ROOT[0] = REPO
         FORCE_DROP[0] = {}
+        FORCE_STUB[0] = set()
 
 
 def _build_unit(name):
